@@ -11,5 +11,5 @@ for P in $PROPS; do
   echo "seed=$SID check=$P tier=$TIER exit=$RC $(echo "$OUT" | grep -c '^VIOLATION') violation line(s)"
   echo "$OUT" | grep -E '^(VIOLATION|  what|KNOWN|ENGINE|INCONCL|NON-REPRO|UNREACHED)' | head -6
 done
-git -C /repo checkout -- .
+git -C /repo reset -q HEAD; git -C /repo checkout -- .
 git -C /repo status --porcelain --untracked-files=no | head -3
